@@ -6,10 +6,11 @@ package sqlparser
 
 // Literal kinds, from the property statement: string literals in any quoting form (StrVal, PgEscapeString)
 // and numeric literals (IntVal, FloatVal). HexNum, HexVal, BitVal are not named by the property and are
-// classified "not demanded"; ValArg is a placeholder already. The structural obligation below makes a new
+// classified "not demanded"; ValArg and PgPlaceholder are placeholders already; UnknownVal wraps a cast expression
+// (its inner expression is NOT walked by SQLVal.walkSubtree - unverified, see DESIGN.md). The structural obligation below makes a new
 // ValType constant fail until it is classified here.
 //@ spec isLiteralKind(t ValType) bool = t == StrVal || t == IntVal || t == FloatVal || t == PgEscapeString
-//@ structural valtype-classified props C16 : enum-classified ValType StrVal IntVal FloatVal PgEscapeString HexNum HexVal ValArg BitVal
+//@ structural valtype-classified props C16 : enum-classified ValType StrVal IntVal FloatVal PgEscapeString HexNum HexVal ValArg BitVal PgPlaceholder UnknownVal
 
 //@ func (nz *normalizer) sqlToBindvar(node SQLNode) (bv *querypb.BindVariable)
 //@   props C16
